@@ -653,6 +653,16 @@ class HTTPResponse(BaseHTTPResponse):
         if not self._pool or not self._connection:
             return None
 
+        # A connection whose response body was not read to the end must not
+        # serve another request: the rest of the body may still be in flight
+        # and would be taken for the next response.
+        if (
+            self._original_response is not None
+            and not self._original_response.isclosed()
+            and self.length_remaining != 0
+        ):
+            self._connection.close()
+
         self._pool._put_conn(self._connection)
         self._connection = None
 
